@@ -41,6 +41,9 @@ func raceWorker(repo string) int {
 	rn := &runner{repo: repo}
 	for pos := 0; pos < len(docs); {
 		n := []int{2, 8}[r.Intn(2)]
+		if pos == 0 {
+			n = 8 // the first documents (same-language hyphenation in the quick pass) all at once
+		}
 		if pos+n > len(docs) {
 			n = len(docs) - pos
 		}
@@ -101,6 +104,12 @@ func raceKey(report string) string {
 func raceRun(rn *runner, docs []Doc, seed uint64) error {
 	out := rn.out
 	exe := "/verif/.build/wrh_C15_race"
+	args := []string{"build", "-race"}
+	if rn.repo != "/repo" {
+		// another checkout (VERIF_REPO): the orchestrator has written go.alt.mod replacing the module by it
+		exe += "_alt"
+		args = append(args, "-modfile=go.alt.mod")
+	}
 	if b := os.Getenv("WRH_C15_RACE_EXE"); b != "" {
 		exe = b
 	}
@@ -109,9 +118,12 @@ func raceRun(rn *runner, docs []Doc, seed uint64) error {
 		return err
 	}
 	t0 := time.Now()
-	cmd := exec.Command("go", "build", "-race", "-tags", "verif c15", "-o", exe, "./cmd/wrh")
+	cmd := exec.Command("go", append(args, "-tags", "verif c15", "-o", exe, "./cmd/wrh")...)
 	cmd.Dir = wd
 	cmd.Env = append(os.Environ(), "GOFLAGS=-mod=mod", "GOPROXY=off", "GOSUMDB=off", "GOTOOLCHAIN=local", "CGO_ENABLED=1")
+	if os.Getenv("GOCACHE") == "" {
+		cmd.Env = append(cmd.Env, "GOCACHE=/verif/.build/gocache") // the build cache the orchestrator uses: the -race objects stay cached
+	}
 	if b, err := cmd.CombinedOutput(); err != nil {
 		return fmt.Errorf("go build -race: %v: %s", err, tail(string(b), 400))
 	}
@@ -135,8 +147,12 @@ func raceRun(rn *runner, docs []Doc, seed uint64) error {
 		out.Add(res.Finding{Kind: "judge", Op: "judge:race", Input: fmt.Sprintf("concurrent renders of %d generated documents (seed %d) under -race", len(docs), seed),
 			Impl: tail2(rep, 3000), Reason: "the Go race detector reported a data race between concurrent renders", Key: raceKey(rep), Seed: seed})
 	}
+	if m := fatalRe.FindStringSubmatch(se.String()); m != nil {
+		out.Add(res.Finding{Kind: "judge", Op: "judge:concurrent-fatal", Input: fmt.Sprintf("concurrent renders of %d generated documents (seed %d) under -race", len(docs), seed),
+			Impl: tail2(se.String(), 2500), Reason: "the process rendering documents concurrently died with a Go fatal error: " + m[1], Key: "fatal:" + m[1], Seed: seed})
+	}
 	out.Dist["race:reports"] += len(reports) - 1
-	if answered < len(docs) && len(reports) == 1 {
+	if answered < len(docs) && len(reports) == 1 && !fatalRe.MatchString(se.String()) {
 		return fmt.Errorf("race worker answered %d of %d documents (exit %v): %s", answered, len(docs), rerr, tail(se.String(), 400))
 	}
 	return nil
